@@ -228,6 +228,9 @@ func SenderConfig(prop string, r *Rand, tier string) map[string]int64 {
 	if c["w_l1reorg"] > 0 && r.Bool(50) {
 		c["early_claims"] = 1
 	}
+	// a second reader of the node's certificate database (what the node's RPC does on every status request) that runs
+	// between two statements of the node's own write of an accepted certificate
+	c["w_readsave"] = int64([]int{0, 0, 2, 5}[r.Intn(4)])
 	return c
 }
 
@@ -1036,7 +1039,7 @@ func runSender(prop string, tr *Trace, sc *Script, rec *Recorder, scratch string
 	gen := func(r *Rand) (Op, bool) {
 		labels := s.w.ParkedLabels()
 		wts := []int{int(cfg["w_l1mine"]), int(cfg["w_l1fin"]), int(cfg["w_l1sync"]), int(cfg["w_l2block"]), int(cfg["w_epoch"]), int(cfg["w_time"]),
-			int(cfg["w_rel"]), int(cfg["w_move"]), int(cfg["w_fault"]), int(cfg["w_lost"]), int(cfg["w_crash"]), int(cfg["w_losedb"]), int(cfg["w_savefault"]), int(cfg["w_pvodd"]), int(cfg["w_opt"]), int(cfg["w_crashsubmit"]), int(cfg["w_contradict"]), int(cfg["w_l2reorg"]), int(cfg["w_l2reorg"]), int(cfg["w_l1reorg"]), int(cfg["w_savefault"])}
+			int(cfg["w_rel"]), int(cfg["w_move"]), int(cfg["w_fault"]), int(cfg["w_lost"]), int(cfg["w_crash"]), int(cfg["w_losedb"]), int(cfg["w_savefault"]), int(cfg["w_pvodd"]), int(cfg["w_opt"]), int(cfg["w_crashsubmit"]), int(cfg["w_contradict"]), int(cfg["w_l2reorg"]), int(cfg["w_l2reorg"]), int(cfg["w_l1reorg"]), int(cfg["w_savefault"]), int(cfg["w_readsave"])}
 		if s.l1.HeadNum() <= s.l1.Finalized {
 			wts[19] = 0
 		}
@@ -1079,9 +1082,11 @@ func runSender(prop string, tr *Trace, sc *Script, rec *Recorder, scratch string
 			wts[9] = 0
 			wts[15] = 0
 			wts[20] = 0
+			wts[21] = 0
 		} else {
 			wts[15] *= 6 // the window is short: take it when it is open
 			wts[20] *= 4
+			wts[21] *= 4
 		}
 		switch r.Pick(wts) {
 		case 19:
@@ -1128,6 +1133,8 @@ func runSender(prop string, tr *Trace, sc *Script, rec *Recorder, scratch string
 			return Op{K: "crashsubmit"}, true
 		case 20:
 			return Op{K: "failsave", A: []int64{int64(1 + r.Intn(8))}}, true
+		case 21:
+			return Op{K: "readsave", A: []int64{int64(1 + r.Intn(6))}}, true
 		case 16:
 			return Op{K: "contradict", A: []int64{int64(r.Intn(3))}}, true
 		case 18:
@@ -1414,6 +1421,39 @@ func runSender(prop string, tr *Trace, sc *Script, rec *Recorder, scratch string
 				rec.Stats.Inc("failsave_attempt_had_fewer_statements")
 			}
 			rec.Step("fs")
+		case "readsave":
+			// the Agglayer accepts the certificate; while the node records it, at the first write statement at or
+			// after its k-th statement (transaction open, nothing committed), another reader asks the node's storage
+			// for the last sent certificate - the call the node's RPC makes for every status request. Nothing is
+			// judged here: whatever that reader leaves behind in the node must not change what the node does next
+			// (the oracles on the certificates that follow judge that).
+			var p *parkedCall
+			for _, q := range s.w.Parked() {
+				if q.method == "SubmitCertificate" {
+					p = q
+				}
+			}
+			st, _ := reflectField(s.node, "storage").(interface {
+				GetLastSentCertificate() (*aggsendertypes.Certificate, error)
+			})
+			if p == nil || s.faultArmed || st == nil {
+				return nil
+			}
+			plan := &FaultPlan{YieldAt: int(op.Arg(0)), YieldWritesOnly: true}
+			inStep := true
+			plan.Yield = func() {
+				if !inStep {
+					return
+				}
+				if _, err := st.GetLastSentCertificate(); err == nil {
+					rec.Stats.Inc("rpc_reads_of_the_last_certificate_inside_the_nodes_write_of_an_accepted_certificate")
+				}
+			}
+			ArmFault(s.dbPath, plan)
+			s.w.Release(p, replyOK)
+			inStep = false
+			DisarmFault(s.dbPath)
+			rec.Step("rs")
 		case "opt":
 			s.optOn = !s.optOn
 			rec.Stats.Inc("optimistic_mode_toggled")
